@@ -187,3 +187,91 @@ def release_rules(R, F, inst, why):
         ok = bool(ws) and all(const_val(e["args"][0]) == KWRITE for _, e in ws)
         R.ob(inst, fn, fn.loc, ok, "drain waits until the word equals exactly kWriteBit (no readers)" if ok else "drain does not wait for 'writer bit and zero readers'", sitekey="drain", why="exclusive access requires that every reader has left")
     return n
+
+
+ARITH_OPS = ("load", "fetch_add", "fetch_sub", "fetch_or", "fetch_and", "compare_exchange_weak", "compare_exchange_strong")
+
+
+def word_updates(R, F, inst):
+    """The lock word is shared with threads that are, at any instant, part-way through a speculative
+    `fetch_add(1)` / back-out pair. Any write that is not an arithmetic read-modify-write of the
+    current value (store, exchange, CompletionEventImpl::notify, operator=) erases such an in-flight
+    count: the back-out then removes someone else's count. Every access to the word from RWLockImpl
+    must therefore be a load, fetch_add/sub/or/and or a compare-exchange."""
+    n = 0
+    for fn in F.functions(cls=CLS):
+        nm = fn.qname.split("::")[-1]
+        if nm in ("(ctor)", "(dtor)"):
+            continue
+        for a in atomic_ops(F, fn):
+            if a.field != WORD:
+                continue
+            n += 1
+            ok = a.op in ARITH_OPS
+            R.ob(inst, fn, a.node, ok, "%s: %s on the lock word" % (nm, a.op), sitekey="%s@%s" % (a.op, nm),
+                 why="a plain store/exchange overwrites the counts of readers that are between their speculative increment and its back-out")
+        for p, e in fn.events():
+            if e.get("k") == "call" and (e.get("cls") or "").endswith("CompletionEventImpl") and e.get("name") not in ("wait", "tryNotify", "intrusiveStatus", "waitUntilChanged", "waitFor", "waitUntil"):
+                if e.get("name") in ("CompletionEventImpl", "~CompletionEventImpl"):
+                    continue
+                n += 1
+                R.ob(inst, fn, e, False, "%s calls CompletionEventImpl::%s, which stores to the lock word" % (nm, e.get("name")), sitekey="event@" + nm,
+                     why="notify() stores a whole status value: it erases the reader counts")
+    return n
+
+
+def transitions(R, F, inst):
+    """lock_downgrade: +1 reader *before* the writer bit is cleared (never a window with the word 0
+    while the caller still reads; never a combined overwrite). lock_upgrade: writer bit claimed
+    before the caller's own reader count is dropped, and the drain wait comes last."""
+    n = 0
+
+    def sites(fn):
+        add = [a for a in atomic_ops(F, fn) if a.field == WORD and a.op == "fetch_add" and const_val(a.node["args"][0]) == 1]
+        sub = [a for a in atomic_ops(F, fn) if a.field == WORD and a.op == "fetch_sub" and const_val(a.node["args"][0]) == 1]
+        clr = [p for p, e in fn.events() if is_call(e, CLS + "::unlock")] + [a.pos for a in atomic_ops(F, fn) if a.field == WORD and a.op == "fetch_and" and const_val(a.node["args"][0]) == KREADERS]
+        setw = [p for p, e in fn.events() if is_call(e, CLS + "::setWriteBit")]
+        drain = [p for p, e in fn.events() if is_call(e, CLS + "::waitForReaderDrain")]
+        return add, sub, clr, setw, drain
+
+    def unrecognised(fn, allowed):
+        """word operations other than the ones the transition is written in today: a rewrite this
+        rule has no model for (e.g. a single combined fetch_add) -> inconclusive, not a violation"""
+        out = []
+        for a in atomic_ops(F, fn):
+            if a.field != WORD or a.op not in ARITH_OPS:
+                continue   # non-arithmetic writes are C22.word-updates violations already
+            c = const_val(a.node["args"][0]) if a.node.get("args") else None
+            if (a.op, c) not in allowed:
+                out.append("%s(%s)" % (a.op, c))
+        return out
+
+    for fn in F.functions(qname=CLS + "::lock_downgrade"):
+        n += 1
+        add, sub, clr, setw, drain = sites(fn)
+        un = unrecognised(fn, {("fetch_add", 1), ("fetch_and", KREADERS)})
+        if un:
+            R.inconclusive(inst, "lock_downgrade is written with %s: no model for this shape" % ", ".join(un))
+            continue
+        ok = len(add) == 1 and len(clr) == 1 and not sub and fn.dominates(add[0].pos, clr[0]) and fn.postdominates(clr[0], add[0].pos) \
+            and fn.path_to_exit_avoiding(Pos(fn.entry, -1), lambda pp, ee: pp == add[0].pos) is None
+        R.ob(inst, fn, fn.loc, ok, "downgrade adds its reader count, then clears only the writer bit, on every path" if ok else "downgrade is not 'fetch_add(1) then clear the writer bit' (adds %d, clears %d, subs %d)" % (len(add), len(clr), len(sub)),
+             sitekey="downgrade", why="the downgrading writer must become a counted reader before any other writer can claim the bit, without disturbing in-flight reader counts")
+    for fn in F.functions(qname=CLS + "::lock_upgrade"):
+        n += 1
+        add, sub, clr, setw, drain = sites(fn)
+        un = unrecognised(fn, {("fetch_sub", 1)})
+        if un:
+            R.inconclusive(inst, "lock_upgrade is written with %s: no model for this shape" % ", ".join(un))
+            continue
+        ok = len(setw) == 1 and len(sub) == 1 and len(drain) == 1 and not add and not clr and fn.dominates(setw[0], sub[0].pos) and fn.dominates(sub[0].pos, drain[0]) \
+            and fn.path_to_exit_avoiding(Pos(fn.entry, -1), lambda pp, ee: pp == drain[0]) is None
+        R.ob(inst, fn, fn.loc, ok, "upgrade claims the writer bit, drops its own reader count, then waits for the drain" if ok else "upgrade is not 'setWriteBit; fetch_sub(1); waitForReaderDrain'",
+             sitekey="upgrade", why="dropping the reader count before owning the writer bit lets another writer in; not dropping it deadlocks the drain")
+    for fn in F.functions(qname=CLS + "::lock"):
+        n += 1
+        add, sub, clr, setw, drain = sites(fn)
+        ok = len(setw) == 1 and len(drain) == 1 and fn.dominates(setw[0], drain[0]) and fn.path_to_exit_avoiding(Pos(fn.entry, -1), lambda pp, ee: pp == drain[0]) is None and not add and not sub and not clr
+        R.ob(inst, fn, fn.loc, ok, "lock() = setWriteBit then waitForReaderDrain on every path" if ok else "lock() can return without owning the bit and seeing the readers drained",
+             sitekey="lock", why="exclusive access requires the writer bit and zero readers")
+    return n
